@@ -1,4 +1,5 @@
 import gfapy
+import re
 
 class NumericArray(list):
   """
@@ -197,6 +198,9 @@ class NumericArray(list):
       for e in elems[1:]:
         if subtype != "f":
           try:
+            # (int() accepts more than the GFA syntax, e.g. "1_0" or " 5")
+            if not valid and not re.match(r"^[-+]?[0-9]+\Z", e):
+              raise gfapy.ValueError()
             e = int(e)
           except:
             raise gfapy.ValueError("Value is not valid: {}\n".format(e)+
@@ -211,5 +215,13 @@ class NumericArray(list):
                       repr(range), repr(elems)))
           yield e
         else:
-          yield float(e)
+          try:
+            # (float() accepts more than the GFA syntax, e.g. "inf" or "1_0")
+            if not valid and not re.match(
+                r"^[-+]?[0-9]*\.?[0-9]+([eE][-+]?[0-9]+)?\Z", e):
+              raise gfapy.ValueError()
+            yield float(e)
+          except:
+            raise gfapy.ValueError("Value is not valid: {}\n".format(e)+
+                "Numeric array string: {}".format(string))
     return cls(list(gen()))
